@@ -1,3 +1,7 @@
 import RtrProps.C02
 import RtrProps.C01
 import RtrProps.C09
+import RtrProps.C20
+import RtrProps.C17
+import RtrProps.C10
+import RtrProps.C15
